@@ -108,3 +108,187 @@ def _as_scheme(ctx, st, s):
     if isinstance(s, EnumVal):
         return s
     return [e for e in _SCH if e.value == s][0]
+
+# ----------------------------------------------------------------------------------------------- C18: command line
+from pyvc.core import Record  # noqa: E402
+from pyvc.values import BoundMethod, py_eq, zbool  # noqa: E402
+
+PATHW = core.uf("Path.with_suffix", TName.sort(), TName.sort(), TName.sort())
+
+
+def mkpath(p):
+    return Record("Path", {"p": lift(p, TName)})
+
+
+core.RECORDS["Path"] = {"p": "Name"}
+
+
+@external("pathlib.Path")
+def _Path(ctx, st, x):
+    ctx.assumed_used.add("pathlib.Path: with_suffix is a function of (path, suffix); write_text is the only write")
+    if isinstance(x, Record) and x.cls == "Path":
+        return x
+    return mkpath(x)
+
+
+def _with_suffix(ctx, st, rec):
+    def impl(c, s, suffix=None):
+        return Record("Path", {"p": SV(TName, PATHW(rec.fields["p"].t, lift(suffix, TName).t))})
+    return BoundMethod(rec, "with_suffix", impl)
+
+
+def _write_text(ctx, st, rec):
+    def impl(c, s, text):
+        s.env["__trace__"] = s.env.get("__trace__", ()) + (("write_text", {"path": rec.fields["p"], "text": text}),)
+        return None
+    return BoundMethod(rec, "write_text", impl)
+
+
+registry.EXTERNALS["Path.with_suffix"] = _with_suffix
+registry.EXTERNALS["Path.write_text"] = _write_text
+registry.EXTERNALS["Path.suffix"] = lambda ctx, st, rec: SV(TName, core.uf("Path.suffix", TName.sort(), TName.sort())(rec.fields["p"].t))
+registry.EXTERNALS["Path.exists"] = lambda ctx, st, rec: BoundMethod(rec, "exists", lambda c, s: SV(TBool, core.uf("Path.exists", TName.sort(), z3.BoolSort())(rec.fields["p"].t)))
+
+
+@registry.spec("TRACE")
+def _TRACE(ctx, st):
+    return st.env.get("__trace__", ())
+
+
+def _same_value(a, b):
+    r = py_eq(a, b)
+    if isinstance(r, SV):
+        return r.t
+    return z3.BoolVal(bool(r))
+
+
+@registry.spec("trace_is")
+def _trace_is(ctx, st, expected):
+    """the ghost trace of external/contract calls equals `expected`: a list of (name, {arg: value})"""
+    tr = st.env.get("__trace__", ())
+    if len(tr) != len(expected):
+        return False
+    parts = []
+    for (n1, a1), (n2, a2) in zip(tr, expected):
+        if n1 != n2 and not n1.endswith("." + n2):
+            return False
+        for k, v in a2.items():
+            if k not in a1:
+                return False
+            parts.append(_same_value(a1[k], v))
+    return SV(TBool, z3.And(*parts)) if parts else True
+
+
+@registry.spec("no_write")
+def _no_write(ctx, st):
+    return all(n != "write_text" for n, _ in st.env.get("__trace__", ()))
+
+
+@registry.spec("out_path")
+def _out_path(ctx, st, fname, outname, suffix):
+    base = fname.fields["p"] if outname is None else lift(outname, TName)
+    return SV(TName, PATHW(base.t, lift(suffix, TName).t))
+
+
+G = "gotranx.cli."
+contract("gotranx.load.load_ode", params={"path": "Rec:Path"}, ret="ODE", raises={"ODEFileNotFound": "maybe", "GotranxError": "maybe", "Exception": "maybe"},
+         traced=True, assumed=True, pure=False, ensures={"wf": "WF(result)"},
+         note="load_ode is outside this contract set (lark + transformer + make_ode): assumed to return a WF model or raise")
+
+_PYF = enum_values("PythonFormat")
+_CF = enum_values("CFormat")
+_BK = enum_values("Backend")
+_schemes2 = [None, [], [_by["explicit_euler"], _by["hybrid_rush_larsen"]]]
+_outname = core.fresh(TName, "outname")
+_stiff = [None, [], ["V"]]
+
+contract(G + "gotran2py.get_code",
+         params={"ode": "ODE", "scheme": "PyList", "format": "Enum:PythonFormat", "remove_unused": "Bool", "missing_values": "any",
+                 "delta": "Real", "stiff_states": "any", "backend": "Enum:Backend", "shape": "any"},
+         ret="Text", raises={"Exception": "maybe"}, traced=True, assumed=True, pure=False,
+         note="interface used by gotran2py.main; the body is verified under the name gotran2py.get_code@body")
+contract(G + "gotran2c.get_code",
+         params={"ode": "ODE", "scheme": "PyList", "format": "Enum:CFormat", "remove_unused": "Bool", "missing_values": "any",
+                 "delta": "Real", "stiff_states": "any"},
+         ret="Text", raises={"Exception": "maybe"}, traced=True, assumed=True, pure=False)
+
+contract(
+    G + "gotran2py.main",
+    params={"fname": "Rec:Path", "outname": "any", "format": "Enum:PythonFormat", "scheme": "PyList", "remove_unused": "Bool",
+            "verbose": "Bool", "stiff_states": "any", "delta": "Real", "suffix": "Name", "backend": "Enum:Backend"},
+    ret="PyNone", raises={"Exception": "maybe", "ODEFileNotFound": "maybe", "GotranxError": "maybe"},
+    enum_params={"outname": [None, _outname], "format": _PYF[:2], "scheme": _schemes2, "stiff_states": _stiff, "backend": _BK},
+    ensures={"loads_generates_then_writes_exactly_the_generated_text":
+             "trace_is([('load_ode', {'path': fname}), "
+             "('gotran2py.get_code', {'scheme': scheme, 'format': format, 'remove_unused': remove_unused, 'stiff_states': stiff_states, "
+             "'delta': delta, 'backend': backend}), "
+             "('write_text', {'path': out_path(fname, outname, suffix), 'text': code})])"},
+    on_raise={"no_output_file_on_failure": "no_write()"},
+    properties=("C18",),
+)
+contract(
+    G + "gotran2c.main",
+    params={"fname": "Rec:Path", "suffix": "Name", "outname": "any", "scheme": "PyList", "remove_unused": "Bool",
+            "format": "Enum:CFormat", "verbose": "Bool", "missing_values": "any", "delta": "Real", "stiff_states": "any"},
+    ret="PyNone", raises={"Exception": "maybe", "ODEFileNotFound": "maybe", "GotranxError": "maybe"},
+    enum_params={"outname": [None, _outname], "format": _CF, "scheme": _schemes2, "stiff_states": _stiff, "missing_values": [None]},
+    ensures={"loads_generates_then_writes_exactly_the_generated_text":
+             "trace_is([('load_ode', {'path': fname}), "
+             "('gotran2c.get_code', {'scheme': scheme, 'format': format, 'remove_unused': remove_unused, 'stiff_states': stiff_states, "
+             "'delta': delta, 'missing_values': missing_values}), "
+             "('write_text', {'path': out_path(fname, outname, suffix), 'text': code})])"},
+    on_raise={"no_output_file_on_failure": "no_write()"},
+    properties=("C18",),
+)
+
+CONTRACTS[U + "validate_scheme"].ret_py = lambda ctx, st, env: [_as_scheme(ctx, st, s) for s in env["scheme"]]
+CONTRACTS[G + "gotran2py.main"].traced = True
+CONTRACTS[G + "gotran2c.main"].traced = True
+
+_fname = mkpath(core.fresh(TName, "fname").t if False else core.fresh(TName, "fname"))
+_CONFIGS = [
+    {},
+    {"verbose": True, "delta": 0.5, "stiff_states": ["m"], "scheme": ["hybrid_rush_larsen"],
+     "python": {"format": "none", "backend": "jax"}, "c": {"to": ".c", "format": "none"}},
+]
+_CMD_COMMON = dict(
+    ret="PyNone", raises={"Exception": "maybe", "ValueError": "maybe", "ODEFileNotFound": "maybe", "GotranxError": "maybe"},
+    abstractions={"utils.read_config(config)": "CONFIG"},
+)
+_CMD_ENUM = {"fname": [None, _fname], "outname": [None, _outname], "version": [None], "license": [None], "config": [None],
+             "scheme": [[], [_by["generalized_rush_larsen"]]], "stiff_states": [[], ["V"]], "CONFIG": _CONFIGS}
+
+contract(
+    G + "ode2py",
+    params={"fname": "any", "outname": "any", "remove_unused": "Bool", "version": "any", "license": "any", "config": "any",
+            "verbose": "Bool", "scheme": "PyList", "stiff_states": "any", "delta": "Real", "format": "Enum:PythonFormat",
+            "backend": "Enum:Backend", "CONFIG": "any"},
+    enum_params=dict(_CMD_ENUM, format=_PYF[:2], backend=_BK),
+    ensures={"every_option_is_forwarded_config_file_overrides_the_command_line":
+             "trace_is([] if fname is None else [('gotran2py.main', {'fname': fname, 'outname': outname, "
+             "'scheme': [as_scheme(s) for s in CONFIG.get('scheme', scheme)], 'remove_unused': remove_unused, "
+             "'verbose': CONFIG.get('verbose', verbose), 'stiff_states': CONFIG.get('stiff_states', stiff_states), "
+             "'delta': CONFIG.get('delta', delta), 'format': PythonFormat(CONFIG.get('python', {}).get('format', format)), "
+             "'backend': Backend(CONFIG.get('python', {}).get('backend', backend))})])"},
+    properties=("C18",), **_CMD_COMMON,
+)
+contract(
+    G + "ode2c",
+    params={"fname": "any", "to": "Name", "outname": "any", "remove_unused": "Bool", "version": "any", "license": "any",
+            "config": "any", "verbose": "Bool", "scheme": "PyList", "stiff_states": "any", "delta": "Real",
+            "format": "Enum:CFormat", "CONFIG": "any"},
+    enum_params=dict(_CMD_ENUM, format=_CF),
+    ensures={"every_option_is_forwarded_config_file_overrides_the_command_line":
+             "trace_is([] if fname is None else [('gotran2c.main', {'fname': fname, 'outname': outname, "
+             "'suffix': CONFIG.get('c', {}).get('to', to), "
+             "'scheme': [as_scheme(s) for s in CONFIG.get('scheme', scheme)], 'remove_unused': remove_unused, "
+             "'verbose': CONFIG.get('verbose', verbose), 'stiff_states': CONFIG.get('stiff_states', stiff_states), "
+             "'delta': CONFIG.get('delta', delta), 'format': CFormat(CONFIG.get('c', {}).get('format', format))})])"},
+    properties=("C18",), **_CMD_COMMON,
+)
+registry.SPECS["PythonFormat"] = lambda ctx, st, v: ctx.construct(I.ClassRef("gotranx.codegen.python.Format"), [v], {}, st)
+registry.SPECS["CFormat"] = lambda ctx, st, v: ctx.construct(I.ClassRef("gotranx.codegen.c.Format"), [v], {}, st)
+registry.SPECS["Backend"] = lambda ctx, st, v: ctx.construct(I.ClassRef("gotranx.cli.gotran2py.Backend"), [v], {}, st)
+for _q in (G + "gotran2py.main", G + "gotran2c.main"):
+    CONTRACTS[_q].internal.update(CONTRACTS[_q].ensures)
+    CONTRACTS[_q].ensures.clear()
